@@ -2104,6 +2104,120 @@ def adoption_order_table(repo, run, rule):
         run.ok(rule, mc, 'adoption order (%d rows)' % rows, 'fields stored first, then pushed down; propagation exactly for the fields handed over')
 
 
+def add_multiple_sources_table(repo, run, rule):
+    """Builder.add_multiple_sources evaluated (add_source is a recording stand-in): source i is added with the i-th raw_yaml /
+    filename / safe value when a sequence is given and with the single value when a scalar is given (a string counts as a scalar);
+    sources are added in order; a sequence of the wrong length is a ValueError"""
+    fi = repo.func('Builder.add_multiple_sources')
+    bad = []
+    rows = 0
+    for safe in (None, False, True, [True, False], [False, None]):
+        for raw in (None, [True, False]):
+            for fname in (None, 'one.yaml', ['a.yaml', None]):
+                log = []
+
+                def stub(n, recv, a, k, log=log):
+                    log.append((a[0] if a else k.get('source'), k.get('raw_yaml', a[1] if len(a) > 1 else None), k.get('filename', a[2] if len(a) > 2 else None), k.get('safe', a[3] if len(a) > 3 else None)))
+                    return None
+                f = FDE(repo, stubs={'add_source'}, stub=stub)
+                r = fde_guard(lambda: f.call(fi, Obj('builder', 'Builder'), 'S0', 'S1', raw_yaml=raw, filename=fname, safe=safe))
+                rows += 1
+
+                def at(v, i):
+                    return v[i] if isinstance(v, list) else v
+                want = [('S%d' % i, at(raw, i), at(fname, i), at(safe, i)) for i in (0, 1)]
+                if r.raised or log != want:
+                    bad.append('add_multiple_sources(S0, S1, raw_yaml=%r, filename=%r, safe=%r): %s, expected %s' % (raw, fname, safe, 'raises ' + str(r.raised) if r.raised else 'adds %s' % log, want))
+    f = FDE(repo, stubs={'add_source'}, stub=lambda *a: None)
+    r = fde_guard(lambda: f.call(fi, Obj('builder', 'Builder'), 'S0', 'S1', safe=[True, False, True]))
+    rows += 1
+    if r.raised != 'ValueError':
+        bad.append('three safe flags for two sources: %s, expected ValueError' % (r.raised or 'accepted'))
+    run.table(rule, rows, 'add_multiple_sources over scalar / per-source raw_yaml, filename, safe')
+    if bad:
+        run.violation(rule, fi, 'per-source arguments', bad[0] + (' [%d rows]' % len(bad) if len(bad) > 1 else '') + ': a source declared unsafe must be parsed under its own flag', witness=bad[:4])
+    else:
+        run.ok(rule, fi, 'per-source arguments (%d rows)' % rows, 'scalars broadcast, sequences applied element-wise, in order')
+
+
+def storage_receives_node(repo, run, rule):
+    """the mutators that add an entry to a container node, evaluated (ComposedNode.ayns.set_child is a stand-in that answers with
+    the wrapped node): what is put into the built-in list / dict storage is that very node - not the raw value the caller handed
+    in - under the same index / key the child map was given"""
+    bad = []
+    n = 0
+    for q, args, op in (('ConfigList.insert', (1, 'RAW'), 'list.insert'), ('ConfigList.append', ('RAW',), 'list.append'), ('ConfigList._set', (1, 'RAW'), 'list.__setitem__'),
+                        ('ConfigDict._set', ('k', 'RAW'), 'dict.__setitem__')):
+        if not repo.has_func(q):
+            continue
+        fi = repo.func(q)
+        W = Obj('WRAPPED', 'ConfigScalar')
+        keys = []
+
+        def stub(name, recv, a, k, keys=keys, W=W):
+            if name == 'set_child':
+                keys.append(a[-2] if len(a) >= 2 else None)
+                return W
+            if name == '_validate_index':
+                return a[0]
+            return None
+        f = FDE(repo, stubs={'set_child', '_validate_index', 'remove_child'}, stub=stub)
+        f.extcalls = {'dir': lambda *a: []}
+        me = node_obj('cont', q.split('.')[0], _children={0: node_obj('a'), 1: node_obj('b')} if 'List' in q else {'x': node_obj('a')})
+        try:
+            r = f.call(fi, me, *args)
+            raised = r.raised
+        except Unsupported:
+            raised = None       # (the rebuild of the child map from the built-in storage is beyond the evaluator; the stores before it are recorded)
+        stores = [e for e in f.effects if e[0] == 'call' and e[1] in ('list.insert', 'list.append', 'list.__setitem__', 'dict.__setitem__') and e[2] is me]
+        n += 1
+        what = '%s(%s)' % (q, ', '.join(map(repr, args)))
+        if raised:
+            bad.append('%s raises %s' % (what, raised))
+        elif len(stores) != 1 or len(keys) != 1:
+            raise AnalysisError('%s: %s: store into the built-in storage / child map not recognised (%d / %d)' % (rule, what, len(stores), len(keys)))
+        elif stores[0][3][-1] is not W:
+            bad.append('%s puts %r into the built-in %s storage while the child map holds the wrapped node: the two views no longer hold the same objects (entries that are not nodes)' % (what, stores[0][3][-1], 'list' if 'List' in q else 'dict'))
+        elif len(stores[0][3]) == 2 and stores[0][3][0] != keys[0]:
+            bad.append('%s stores under %r in the built-in storage and under %r in the child map' % (what, stores[0][3][0], keys[0]))
+    if n < 3:
+        raise AnalysisError('%s: container mutators not found' % rule)
+    if bad:
+        run.violation(rule, repo.func('ConfigList.insert') if repo.has_func('ConfigList.insert') else fi, 'what the built-in storage receives', '; '.join(bad[:2]))
+    else:
+        run.ok(rule, fi, 'insert / append / _set: the built-in storage receives the node the child map holds, under the same key (%d mutators)' % n)
+
+
+def eval_namespace_views(repo, run, rule):
+    """what the code of an !eval node is given to look at the config through: the `ayns` entry of a fresh namespace is built from the
+    evaluating context and its EVALUATED view of the config (ctx.ecfg - values, never raw nodes), and the globals wrapper resolves
+    names against the same view with the same context"""
+    fi = repo.func('EvalNode.ayns.on_evaluate_impl')
+    ctxp = fi.params()[2] if len(fi.params()) > 2 else 'ctx'
+    bunches, wrappers = set(), set()
+    for p in tr.paths_of(repo, fi, follow_exceptions=False, no_inline={'_patch_access_to_globals', '_require_safe', 'get_eval_symbols', 'evaluate_node'}):
+        for e in p.events:
+            if e.kind == 'call' and e.callee == 'Bunch' and e.args and e.args[0].items is not None:
+                items = {k.const if k.const is not None else k.text: v.text for k, v in e.args[0].items}
+                if 'cfg' in items or 'ctx' in items:
+                    bunches.add((items.get('ctx'), items.get('cfg')))
+            if e.kind == 'call' and e.callee == 'GlobalsWrapper' and len(e.args) >= 3:
+                wrappers.add((e.args[1].text, e.args[2].text))
+    if not bunches or not wrappers:
+        raise AnalysisError('%s: the `ayns` entry / the globals wrapper of the evaluated code were not found' % rule)
+    bad = []
+    for c, g in sorted(bunches, key=str):
+        if c != ctxp or g != ctxp + '.ecfg':
+            bad.append('the code is given ayns.ctx = %s, ayns.cfg = %s; expected the evaluating context and its evaluated view %s.ecfg (through the raw tree, containers built from config values carry node objects into the result)' % (c, g, ctxp))
+    for g, c in sorted(wrappers):
+        if c != ctxp or g != ctxp + '.ecfg':
+            bad.append('the globals wrapper resolves config names against %s with context %s; expected %s.ecfg and %s' % (g, c, ctxp, ctxp))
+    if bad:
+        run.violation(rule, fi, 'views handed to evaluated code', '; '.join(bad[:2]))
+    else:
+        run.ok(rule, fi, 'evaluated code sees the config through ctx.ecfg (ayns.cfg and the globals wrapper), with the evaluating context')
+
+
 def tag_spec(repo, run, rule, tags):
     """the constructor registered for each of the given tags builds the node class the tag stands for, with the documented data
     handling (which argument receives the YAML value, whether scalars are parsed, whether a mapping is the data or the arguments) - and
